@@ -378,6 +378,46 @@ theorem idle_law_full (cfg : Cfg) (created spawn idle : Int) (evs : List Ev) (it
   have := viewOf_ge_essential created evs it.start c hc hle
   omega
 
+/-- FULL CLAUSE counted from the RECEIPT of a change (`FullIdleRecv`): no run starts within the idle time
+    after the operator began to process an essential change. FALSE of the code
+    (`idle_recv_clause_false_witness`, open finding C10-F2): `idle_reset_time` is stamped in
+    `process_spawning_cause`, i.e. only after the `@kopf.on.event` handlers of the cycle have run; a timer
+    whose idle time is over goes on running while a change is being handled by a slow on-event handler.
+    PROVED under the guard that this is the whole gap: no run starts between the receipt of an essential
+    change and the instant its cycle reaches `process_spawning_cause` (`NoRunDuringProcessing`; trivially
+    met when no time passes there, e.g. no on-event handlers). -/
+theorem idle_law_partial (cfg : Cfg) (created spawn idle : Int) (evs : List Ev) (its : List Iter)
+    (hi : cfg.idle = some idle) (hwf : ∀ e ∈ evs, e.recv ≤ e.t) (hg : NoRunDuringProcessing evs its)
+    (h : Sched cfg (viewOf created evs) spawn its) : FullIdleRecv idle evs its := by
+  intro it hit hrun e he hle
+  have hnot := hg it hit hrun e he
+  have ht : e.t ≤ it.start := by
+    by_cases hlt : it.start < e.t
+    · exact absurd ⟨hle, hlt⟩ hnot
+    · omega
+  have := idle_law_full cfg created spawn idle evs its hi h it hit hrun e.t (essentialEvs_t evs e he) ht
+  have := hwf e (essentialEvs_mem evs e he)
+  omega
+
+/-- The guard is needed (open finding C10-F2, replayed on the real operator in every run,
+    corpus/C10/F2.json): timer interval 1 s, idle 4 s; the object is created and handled at 64/66; an
+    edit is received at 640 (essence 1) but a slow `@kopf.on.event` handler keeps the cycle from reaching
+    `process_spawning_cause` until 768. The timer, idle since 64, runs at 704 — 64 ticks (1 s) after the
+    change was received, although idle = 256 ticks. After 768 the law holds again (next run at 1024). -/
+theorem idle_recv_clause_false_witness :
+    ∃ (cfg : Cfg) (idle created spawn : Int) (evs : List Ev) (its : List Iter),
+      cfg.idle = some idle ∧ (∀ e ∈ evs, e.recv ≤ e.t) ∧ Sched cfg (viewOf created evs) spawn its ∧
+      FullIdle idle evs its ∧ ¬ FullIdleRecv idle evs its := by
+  let cfg : Cfg := { interval := some 64, sharp := false, idle := some 256, initialDelay := none, backoff := 64 }
+  let evs : List Ev := [⟨64, 64, 0, none⟩, ⟨66, 66, 0, some 0⟩, ⟨640, 768, 1, some 0⟩]
+  let mk : Int → Int → Iter := fun top t => { top := top, start := t, ended := t, patched := t, res := some .ok }
+  let its : List Iter := [mk 64 320, mk 384 384, mk 448 448, mk 512 512, mk 576 576, mk 640 640, mk 704 704, mk 768 1024]
+  have hs : Sched cfg (viewOf 64 evs) 64 its := schedCheck_sound (extends_total _) (n := 8) (by decide)
+  refine ⟨cfg, 256, 64, 64, evs, its, rfl, by decide, hs, idle_law_full cfg 64 64 256 evs its rfl hs, ?_⟩
+  intro hfull
+  have := hfull (mk 704 704) (by simp [its]) rfl ⟨640, 768, 1, some 0⟩ (by decide) (by decide)
+  simp [mk] at this
+
 /-- Idle-only timers (no interval): after an iteration that left the state finished, the next one needs
     a change newer than the iteration's start (read at one of the poll instants `patched, patched + idle, …`),
     and then the idle gate. -/
@@ -470,7 +510,7 @@ example : Next cfgI view0 (step cfgI (.fresh 0) iI) iI 584 596 := nextStartN_sou
 -- regression of the former finding C10-F1 (corpus/C10/F1.json): created at 64 (essence 0), recorded as handled
 -- (66), edited to essence 1 at 512 and never recorded as handled, edited BACK to essence 0 at 864. The old
 -- code kept `idle_reset_time` at 512 and ran at 896; now the flip-back is a reset: the view becomes 864 …
-private def evsF : List Ev := [⟨64, 0, none⟩, ⟨66, 0, some 0⟩, ⟨512, 1, some 0⟩, ⟨864, 0, some 0⟩]
+private def evsF : List Ev := [⟨64, 64, 0, none⟩, ⟨66, 66, 0, some 0⟩, ⟨512, 512, 1, some 0⟩, ⟨864, 864, 0, some 0⟩]
 private def cfgF : Cfg := { interval := some 64, sharp := false, idle := some 256, initialDelay := none, backoff := 64 }
 private def mkF (top t : Int) : Iter := { top := top, start := t, ended := t, patched := t, res := some .ok }
 example : viewOf 64 evsF 511 = 64 ∧ viewOf 64 evsF 863 = 512 ∧ viewOf 64 evsF 896 = 864 := by decide
@@ -486,11 +526,11 @@ example : FullIdle 256 evsF itsF :=
 -- restart on an already handled, unchanged object (AUDIT_A2): the memory is created at 1408 by `recall`, a slow
 -- on.event handler delays the first event's processing to 1536, it carries last-handled = its essence: no
 -- essential change, no reset; the timer (idle 256) runs at 1408 + 256 — `FullIdle` holds, nothing changed
-private def evsR : List Ev := [⟨1536, 0, some 0⟩]
+private def evsR : List Ev := [⟨1408, 1536, 0, some 0⟩]
 example : essentialTimes evsR = [] := by decide
 example : Sched cfgF (viewOf 1408 evsR) 1408 [mkF 1408 1664] := schedCheck_sound (extends_total _) (n := 8) (by decide)
 -- … whereas after a change made while the operator was down (last-handled 0, essence 1) the first event resets
-example : essentialTimes [⟨1536, 1, some 0⟩] = [1536] ∧ viewOf 1408 [⟨1536, 1, some 0⟩] 1700 = 1536 := by decide
+example : essentialTimes [⟨1408, 1536, 1, some 0⟩] = [1536] ∧ viewOf 1408 [⟨1408, 1536, 1, some 0⟩] 1700 = 1536 := by decide
 
 end Examples
 
